@@ -58,3 +58,37 @@ func wipe(mp *Pool)     { mp.pool = map[int]int{} }
 // 10. the lock is released before the helper is called: unlocked
 func (mp *Pool) Late() { mp.Lock(); mp.length++; mp.Unlock(); mp.after() }
 func (mp *Pool) after() { mp.orphan-- }
+
+// 11. the lists are collected under the read lock, the lock is released, then they are walked: a read of guarded memory
+// (the slices share the lists' backing arrays) with no lock
+func (mp *Pool) Fetch() int {
+	mp.RLock()
+	var runs []int
+	for _, v := range mp.pool {
+		runs = append(runs, v)
+	}
+	n := mp.length
+	mp.RUnlock()
+	total := n
+	for _, r := range runs {
+		total += r
+	}
+	return total
+}
+
+// 12. the same walk before the (deferred) unlock, and a copied scalar used after the unlock: fine
+func (mp *Pool) FetchLocked() int {
+	mp.RLock()
+	defer mp.RUnlock()
+	total := 0
+	for _, v := range mp.pool {
+		total += v
+	}
+	return total
+}
+func (mp *Pool) Count() int {
+	mp.RLock()
+	n := len(mp.pool)
+	mp.RUnlock()
+	return n
+}
